@@ -6,6 +6,7 @@ import os
 import re
 
 from common import (KANI_TARGET, CACHE, VERIF, Undecided, log, offline_env, run, sha256)
+from common import purge_crate_artifacts as common_purge
 
 KANI_DIR = os.path.join(VERIF, "kani")
 REPLAY_TARGET = os.path.join(CACHE, "replay-target")
@@ -180,6 +181,7 @@ def run_harnesses(scratch, groups_harnesses, jobs=8, timeout=3000, label="kani")
             HOOKS[h](scratch, env)
     # memory ceiling for the whole process tree (CBMC reached 36 GB on an oversized harness)
     with target_lock("kani"):
+        common_purge(KANI_TARGET, scratch)
         rc, out, err, wall = run(cmd, cwd=scratch, timeout=timeout, env=env, mem_gb=MEM_GB)
     text = out + "\n" + err
     if rc == -9:
@@ -248,6 +250,7 @@ def playback(scratch, group, harness, timeout=1500):
     for h in group.pre_hooks:
         HOOKS[h](scratch, env)
     with target_lock("kani"):
+        common_purge(KANI_TARGET, scratch)
         rc, out, err, wall = run(cmd, cwd=scratch, timeout=timeout, env=env)
     tests = []
     cur_desc, vals, in_vals = None, [], False
@@ -286,6 +289,7 @@ def native_replay(scratch, group, harness, values, timeout=1800):
     for h in group.pre_hooks:
         HOOKS[h](scratch, env)
     with target_lock("replay"):
+        common_purge(REPLAY_TARGET, scratch)
         rc, so, se, wall = run(["cargo", "test", "--offline", "--lib", "verif_replay_run", "--", "--nocapture"],
                                cwd=scratch, timeout=timeout, env=env)
     text = so + "\n" + se
